@@ -542,7 +542,7 @@ class IRWithUses(ABC):
 _VALUE_NAME_PATTERN = re.compile(r"([A-Za-z_$.-][\w$.-]*)")
 """Pattern to check if a name is valid for an SSAValue or Block."""
 
-_VALUE_NAME_SUFFIX_PATTERN = re.compile(r"(_\d+)$")
+_VALUE_NAME_SUFFIX_PATTERN = re.compile(r"(_\d+)+$")
 """This pattern is used to remove the suffix from an SSAValue or Block name."""
 
 
